@@ -46,8 +46,14 @@ MkObjs(o) == [i \in 1..Len(o.comps) |-> [cfg |-> o.comps[i], ov |-> o.ov]]
 ObjEval(o, t) == EvalMerged(MkObjs(o), t)
 RECURSIVE SetToSeq(_)
 SetToSeq(S) == IF S = {} THEN <<>> ELSE LET x == CHOOSE y \in S : TRUE IN <<x>> \o SetToSeq(S \ {x})
+\* metadata of MergedTimeline::of([MergedTimeline::of([]), MergedTimeline::of(comps)]): the empty group reports
+\* delay 0, total 0, Repeat::None and NO cycle duration, so the nesting has the smallest delay 0, the same
+\* total, a repeat of the same rank and an undefined cycle duration (a leading undefined component counts)
+NestedMeta(o) == [delay |-> 0, total |-> MTotal(MkObjs(o)),
+                  reps |-> SetToSeq(MRepSet(MkObjs(o)) \cup (IF \A r \in MRepSet(MkObjs(o)) : RepRank(r) = 0 THEN {-1} ELSE {})),
+                  cycle |-> 0]
 Meta(o) == [delay |-> MDelay(MkObjs(o)), total |-> MTotal(MkObjs(o)), reps |-> SetToSeq(MRepSet(MkObjs(o))),
-            cycle |-> MCycle(MkObjs(o)), n |-> Len(o.comps)]
+            cycle |-> MCycle(MkObjs(o)), n |-> Len(o.comps), nested |-> NestedMeta(o)]
 
 LCG(r) == ((r * 1103) + 12345) % 65521
 TimeSeq == SetToSeq(Times)
